@@ -245,7 +245,7 @@ def phase_checks(outdir, ids):
             killed = None
             tried = []
             for cid in ids:
-                p = subprocess.run(["timeout", "1500", "/verif/run", cid, "--tier", "quick", "--no-evidence"], stdout=subprocess.PIPE, stderr=subprocess.STDOUT, text=True,
+                p = subprocess.run(["timeout", "1500", "/verif/run", cid, "--tier", "quick", "--no-evidence", "--jobs", os.environ.get("MUT_JOBS", "8")], stdout=subprocess.PIPE, stderr=subprocess.STDOUT, text=True,
                                    env=dict(os.environ, VERIF_REPO=wt))
                 tried.append((cid, p.returncode))
                 if p.returncode == 1 and "VIOLATION" in p.stdout:
